@@ -132,6 +132,10 @@ def spec_for(op, a, m, tr):
         d = dict(exp); d.update(next_ok='T_NONE', next_fail='T_NONE')
         stubs.append((r'^bool vf::R<\d+>::match<', rule_stub({0: d})))
         post = [E('!vf_exc.pending ==> (g_called[0] && g_ncalls[0] == 1 && RET == g_ok[0] && (RET ==> CONSUMED(in) == g_len[0]))', 'SWITCH-FORWARDS-TO-EXACTLY-THE-RULE', ('C13', 'C04'))]
+    if a == 0 and op in ('ifapply', 'apply', 'apply0'):
+        # actions disabled: the direct actions must not be reachable at all; should a changed rule call one, the call is a failed precondition
+        for pat in (r'^void vf::XV::apply<', r'^bool vf::XB::apply<', r'^vf::X0V::apply0\(', r'^vf::X0B::apply0\('):
+            stubs.append((pat, Contract(R('0', 'direct-action-called-although-actions-are-disabled', ('C04',)), Clause('assigns', '')), 'opt'))
     return stubs, post
 
 
